@@ -313,7 +313,8 @@ def run(rep, tier, props):
                         pred_gap = max(pred_gap, abs(e - pe))
 
     # TLC's verdicts on the recorded structures
-    accepted = 0
+    accepted = 0          # recorded structure = the transcription's result
+    conform = 0           # ... or different from it but conforming to every ideal clause
     corrupt_rejected = 0
     for t, (j, record, expect) in enumerate(to_validate, 1):
         v = verdicts[t]
@@ -340,11 +341,13 @@ def run(rep, tier, props):
                       what='the program returned by to_socp does not carry the input over unchanged (decided by TLC on the recorded structure)',
                       failed=ideal_bad, case=tag, job=job if job['kind'] != 'abstract' else dict(kind='abstract', layout=job['rec']['layout'], L=job['rec']['L'])))
         elif not v['exact']:
+            conform += 1
             stats['drift'] += 1
             if stats['drift'] <= 3:
                 rep.note('transcription drift (not an alarm): to_socp output differs from SocApprox in %s but keeps the ideal (case %s)' % (v['diff'], tag))
         else:
             accepted += 1
+            conform += 1
         direct = r['mutated'] if job['kind'] == 'abstract' else \
             any('GCProg.to_socp(m.do_math())' in f.get('seen_via', []) for f in r['findings'])
         if (not v['input']) != bool(direct):
@@ -353,7 +356,7 @@ def run(rep, tier, props):
         if not v['asTranscribed'] and stats['drift'] <= 3:
             rep.note('transcription drift (not an alarm): the input after the call is not what SocApprox[QmatFixed=%s] predicts (case %s)'
                      % (FLAGS['QmatFixed'], tag))
-    rep.traces_validated += accepted
+    rep.traces_validated += conform
 
     # the counterexample of 1a on the real code
     if cex is not None:
@@ -374,8 +377,8 @@ def run(rep, tier, props):
         for k, want in need.items():
             if not want <= classes[k]:
                 raise tlc.MachineryError('vacuity: class %s covers %s, needs %s' % (k, sorted(classes[k], key=str), sorted(want, key=str)))
-        if accepted == 0 and not any(v['sig'].startswith('C18:not-carried-over') for v in rep.violations):
-            raise tlc.MachineryError('vacuity: TLC accepted none of the %d recorded structures' % genuine)
+        if conform == 0 and not any(v['sig'].startswith('C18:not-carried-over') for v in rep.violations):
+            raise tlc.MachineryError('vacuity: TLC found none of the %d recorded structures conforming' % genuine)
     if stats['abstract_exact'] != stats['abstract']:
         rep.note('%d of %d abstract replays differ from the exported expectation (judged by TLC above)'
                  % (stats['abstract'] - stats['abstract_exact'], stats['abstract']))
@@ -390,7 +393,7 @@ def run(rep, tier, props):
     if any(pred[l] > R.REL_BOUND for l in ls) or any(pred[b] > pred[a] for a, b in zip(ls, ls[1:])):
         rep.note('the approximant of the transcription itself exceeds 1e-3 or is not monotone: %s' % pred)
 
-    rep.extra['socapprox'] = dict(stats, tlc_accepted=accepted, recorded=genuine, corrupted_rejected=corrupt_rejected,
+    rep.extra['socapprox'] = dict(stats, tlc_accepted_exact=accepted, tlc_conforming=conform, recorded=genuine, corrupted_rejected=corrupt_rejected,
                                   corrupted=ncorrupt, measured_vs_predicted_relerr_gap_ecos=pred_gap)
     rep.extra['accuracy_max_relerr_full_status'] = {k: acc_max[k] for k in sorted(acc_max)}
     rep.extra['reduced_accuracy_status'] = dict(count=len(reduced), worst=sorted(reduced, key=lambda x: -x['relerr'])[:5])
